@@ -12,7 +12,7 @@ from common import Check
 from ofgen import rint, rbytes, rmac, rname, U8, U16, U32, U64
 
 sys.path.insert(0, os.path.join(os.path.dirname(os.path.abspath(__file__)), "translate"))
-import codec_layouts
+import codec_layouts, spec_parser
 
 TRAILER = b"\xa5\x5a\xa5"
 MAXLEN = 65535
@@ -304,6 +304,7 @@ class C01(Check):
             c = getattr(nx, name)
             NXM_LEN[name] = (c._nxm_length, bool(c().allow_mask))
         self._load_layouts()
+        self.spec = spec_parser.load(os.path.join(common.LEAN, "PoxModel", "Spec", "OF10Layouts.lean"))
         self._rec_cache = {}
         self.anchors = self.compute_anchors()
 
@@ -332,6 +333,10 @@ class C01(Check):
         classes, untranslated, regs = codec_layouts.run(common.REPO)
         self.lay = {c["name"]: c for c in classes}
         self.untranslated = dict(untranslated)
+        self.regs = regs
+        self.reply_list = {code: cls for code, cls, is_list in regs["statsReplies"] if is_list}
+        self.reply_single = {code: cls for code, cls, is_list in regs["statsReplies"] if not is_list}
+        self.request_cls = dict(regs["statsRequests"])
 
     def translate(self):
         text, classes, untranslated, regs = codec_layouts.render(common.REPO)
@@ -440,6 +445,7 @@ class C01(Check):
         except Exception as e: out["hdr"] = "raise:" + type(e).__name__
         try: out["rec"] = self.rec_for_model(obj)
         except Exception as e: out["rec"] = None; out["rec_error"] = "%s: %s" % (type(e).__name__, e)
+        out["spec"] = self.spec_bytes(obj)
         self._rec_cache[id(case)] = out["rec"]
         try:
             off, o2 = self.do_unpack(obj, b + TRAILER, len(b))
@@ -450,13 +456,43 @@ class C01(Check):
             except Exception as e: out["repack"] = "raise:" + type(e).__name__
             try: out["rec2"] = self.rec_for_model(o2)
             except Exception as e: out["rec2"] = None
+            if out["cls"] in ("ofp_stats_reply", "ofp_stats_request"):
+                try: out["body2"] = self.stats_body_view(o2)
+                except Exception as e: out["body2"] = "raise:%s" % type(e).__name__
         except Exception as e:
             out["outcome"] = "raise:" + type(e).__name__; out["where"] = "unpack"; out["msg"] = str(e)[:120]
         return out
 
     def rec_for_model(self, obj):
-        if type(obj).__name__ == "ofp_packet_out": return self.packet_out_rec(obj)
+        n = type(obj).__name__
+        if n == "ofp_packet_out": return self.packet_out_rec(obj)
+        if n in ("ofp_stats_reply", "ofp_stats_request"): return self.stats_rec(obj)
         return self.rec_of(obj)
+
+    def stats_rec(self, obj):
+        """record for the dispatch model (`CodecOF.encStats`): a reply of a list type carries its entries as records"""
+        r = self.rec_of(obj)
+        if type(obj).__name__ == "ofp_stats_reply" and obj.type in self.reply_list and isinstance(obj.body, (list, tuple)):
+            items = []
+            for e in obj.body:
+                x = self.rec_of(e); x["cls"] = type(e).__name__; items.append(x)
+            r["tail"] = items
+        elif type(obj).__name__ == "ofp_stats_reply" and obj.type in self.reply_list:
+            raise ValueError("list-type reply with a non-list body")
+        return r
+
+    def stats_body_view(self, obj):
+        """what `decBody` should give: the single body object as a record of its registered class"""
+        reply = type(obj).__name__ == "ofp_stats_reply"
+        if reply:
+            c = self.reply_single.get(obj.type)
+            if c is None: return None
+        else:
+            c = self.request_cls.get(obj.type, "ofp_generic_stats_body")
+        if c not in self.lay: return "untranslated-body-class"
+        b = obj.body
+        if type(b).__name__ != c: return {"cls": type(b).__name__, "rec": None, "left": ""}
+        return {"cls": c, "rec": self.rec_of(b), "left": ""}
 
     # -- ofp_match hand model: raw object state in, bytes + unpacked state out
     MATCH_FIELDS = ["in_port", "dl_src", "dl_dst", "dl_vlan", "dl_vlan_pcp", "dl_type", "nw_tos", "nw_proto", "nw_src", "nw_dst", "tp_src", "tp_dst"]
@@ -569,6 +605,8 @@ class C01(Check):
         if rec is None: return None
         if cname == "ofp_packet_out":
             return {"op": "packet_out", "rec": rec, "trailer": TRAILER.hex()}
+        if cname in ("ofp_stats_reply", "ofp_stats_request") and cname in self.lay:
+            return {"op": "stats", "reply": cname == "ofp_stats_reply", "rec": rec, "trailer": TRAILER.hex()}
         if cname not in self.lay or cname == "ofp_match": return None
         cls = self.B.cls(cname)
         return {"op": "codec", "cls": cname, "rec": rec, "avail": issubclass(cls, self.of.ofp_stats_body_base), "trailer": TRAILER.hex()}
@@ -585,6 +623,7 @@ class C01(Check):
             v["len"] = obs.get("len"); v["hdr"] = obs.get("hdr")
             v["spec"] = obs.get("pack")
             v["dec"] = obs.get("rec2"); v["rest"] = TRAILER.hex()
+            if obs.get("cls") in ("ofp_stats_reply", "ofp_stats_request"): v["body"] = obs.get("body2")
         return v
 
     def model_obs(self, case, resp):
@@ -605,6 +644,7 @@ class C01(Check):
                 v["dec"] = d.get("rec"); v["rest"] = d.get("rest")
             else:
                 v["dec"] = d; v["rest"] = None
+            if case.get("spec", {}).get("cls") in ("ofp_stats_reply", "ofp_stats_request"): v["body"] = resp.get("body")
         return v
 
     # ------------------------------------------------------------------ the property on the implementation's observables
@@ -663,27 +703,43 @@ class C01(Check):
         if cls in SPEC_STATS_CODE:
             t = getattr(self.B.cls(cls), "_type", None)
             if t != SPEC_STATS_CODE[cls]: return "stats type of the class is %s, the standard says %d" % (t, SPEC_STATS_CODE[cls])
-        rec = obs.get("rec")
-        if rec is None or cls == "ofp_packet_out": return None
-        d = self.spec_driver()
-        if d is None: return None
-        r = d.ask({"op": "spec", "cls": cls, "rec": rec})
-        sp = r.get("spec")
-        if sp in (None, "no-spec") and "error" not in r: return None
-        if "error" in r or (isinstance(sp, str) and sp.startswith("spec layout")):
-            return "object does not have the fields of the standard's structure: %s" % (r.get("error") or sp)[:80]
+        sp = obs.get("spec")
+        if sp is None: return None
+        if sp.startswith("!"):
+            return "object does not have the fields of the standard's structure: %s" % sp[1:80]
         if sp != obs["pack"]:
             i = next((k for k in range(0, min(len(sp), len(obs["pack"])), 2) if sp[k:k + 2] != obs["pack"][k:k + 2]), min(len(sp), len(obs["pack"])))
             return "bytes differ from the OpenFlow 1.0 layout of this structure at offset %d" % (i // 2)
         return None
 
-    def spec_driver(self):
-        if getattr(self, "_spec_drv", None) is None:
-            try:
-                self._spec_drv = common.Driver("drv_c01")
-            except Exception:
-                self._spec_drv = False
-        return self._spec_drv or None
+    def spec_bytes(self, obj):
+        """the object's field values (read by the field names of the standard's structure) laid out as
+        Spec/OF10Layouts.lean says — in Python, from the parsed text of that file, so that it works without the Lean build.
+        Nested variable-size parts (rest / element lists) are taken as the elements' own pack() bytes: each element class
+        is compared with its own structure as a case of its own."""
+        cname = type(obj).__name__
+        L = self.spec["table"].get(cname)
+        if L is None or cname == "ofp_match": return None          # ofp_match computes its values: hand model
+        fixed, tail = L
+        try:
+            vals = {}
+            for f in fixed:
+                if f[0] == "uint": vals[f[1]] = self.val_num(self.attr(obj, f[1]))
+                elif f[0] in ("blob", "zstr"):
+                    flags = ["substructure-option:match(flow_mod)"] if cname == "ofp_flow_mod" else []
+                    vals[f[1]] = self.val_bytes(self.attr(obj, f[1]), obj, f[1], flags)
+            tb = None
+            if tail is not None and tail[0] == "rest":
+                if cname == "ofp_stats_request": tb = obj._pack_body()
+                elif cname == "ofp_stats_reply": tb = obj.body_data
+                else:
+                    v = getattr(obj, tail[1])
+                    tb = b"" if v is None else (v.pack() if hasattr(v, "pack") else bytes(v))
+            elif tail is not None:
+                tb = b"".join(e.pack() for e in getattr(obj, tail[1]))
+            return spec_parser.encode(L, vals, tb).hex()
+        except Exception as e:
+            return "!%s: %s" % (type(e).__name__, e)
 
     def finding_key(self, case, obs, failure):
         cls = (obs.get("cls") if isinstance(obs, dict) else None) or case.get("spec", {}).get("cls", "?")
